@@ -26,7 +26,7 @@ ASSUMPTIONS = [
     "programs the engine refuses with the documented row-order-loss error are legitimate rejections (counted)",
 ]
 MIN_OBS = {"programs_compared": 200, "nested_select": 20, "elided_or_merged_Projection": 10, "with_join": 20, "with_chain": 20}
-CASE_TIMEOUT = 60
+CASE_TIMEOUT = 25
 
 
 def budget(tier):
@@ -97,7 +97,7 @@ def run_case(case):
         for reverse in (False, True):
             db.conn.exec_driver_sql(f"PRAGMA reverse_unordered_selects={int(reverse)}")
             try:
-                got = names_rows(db.fetch(ex, rel.columns))
+                got = names_rows(db.fetch(ex, rel.columns, rel.engine))
             except Exception as exc:  # noqa: BLE001
                 out["violations"].append({"kind": "database_rejected", "detail": f"{exc_str(exc)} for {model.show(prog)} sql {short(db.text(ex), 500)}"})
                 return out
